@@ -1,7 +1,7 @@
 """C17 -- noise / clipping schedules follow their closed forms and are what is used."""
 from py import vlib
 
-GENS = ['Sched']
+GENS = ['Sched', 'Optim']
 RULE = ('cases = (family noise|clip) x (kind exp|step|lambda) x init x gamma x step_size x lambda-id x op sequence over '
         '{S scheduler.step, O DP optimizer step, R save/fresh/load}; generated from the seed; a case is non-trivial when it '
         'contains at least one S; distinct by canonical JSON of the case')
